@@ -68,6 +68,9 @@ func prots(thorough bool) []*prot {
 		{Name: "internal", Kind: "internal", Dir: "/intern", Target: "/intern/y.txt", BScope: "/intern",
 			Conf:      "internal /intern",
 			Protected: func(rel string) bool { return under(rel, "/intern") }},
+		{Name: "internal-file", Kind: "internal", Dir: "/idx", Target: "/idx/index.html", BScope: "/idx/index.html",
+			Conf:      "internal /idx/index.html",
+			Protected: func(rel string) bool { return rel == "/idx/index.html" }},
 	}
 	bsp := []string{"/SECRET"}
 	isp := []string{"/INTERN"}
@@ -362,7 +365,7 @@ func sanityCases(fx *c02.Fixture, s *site) []rcase {
 		for _, rel := range rels {
 			out = append(out, rcase{Method: "GET", Target: rel, Auth: auth, Valid: true, Expect: "canonical"})
 		}
-		dirScoped := s.P.Name != "basicauth-file"
+		dirScoped := s.P.Name != "basicauth-file" && s.P.Name != "internal-file"
 		add := func(f, target, q, ae string) {
 			switch f {
 			case "browse", "browse-archive", "templates", "markdown", "fastcgi":
@@ -509,7 +512,7 @@ func (e *env) judge(s *site, k rcase, raw []byte, r *lib.Resp) {
 				// disk: the request matcher folds case, browse's hide list (file identity) does not
 				key += "-case-spelling"
 			}
-		case s.P.Name == "basicauth-file" && (own == s.P.Target || strings.HasPrefix(own, s.P.Target+".")) && clean == s.P.Dir:
+		case (s.P.Name == "basicauth-file" || s.P.Name == "internal-file") && (own == s.P.Target || strings.HasPrefix(own, s.P.Target+".")) && clean == s.P.Dir:
 			key = "C03/index-of-file-scoped-rule"
 		}
 		w := &witness{Site: s.String(), SiteConfig: e.conf[s.N], Request: string(raw), Case: k, Status: r.Status, Header: hdr(r), Found: sc.Found,
@@ -601,7 +604,7 @@ func siteSets(c *lib.Ctx) [][2]interface{} {
 			if !compatible(fs) {
 				return
 			}
-			if p.Name == "basicauth-file" {
+			if p.Name == "basicauth-file" || p.Name == "internal-file" {
 				for _, f := range fs {
 					if f == "fastcgi" {
 						return
